@@ -423,6 +423,31 @@ def bound(ctx: Any) -> List[Ob]:
         except lf.NotLinear as e_:
             why_w = f'the delay is not the timeout itself: {e_}'
     obs.append(ob(R, wf, arm[0] if arm else 'loop.call_later(millis_to_seconds(timeout), ...)', 'the wait ends no later than the time it was given: the timer is armed for exactly `timeout` milliseconds', ok_w, why_w))
+    # ... and it really waits: the future it created is registered with the caller's set, is the one the timer resolves, and is
+    # awaited (a helper that returns at once turns the lookup loop into a busy loop that never yields to the event loop), the
+    # timer resolves it through the only-if-not-done setter, and both are undone on the way out
+    wcfg = cfg_of(wf.node)
+    futs = [st_.targets[0].id for st_ in walk_local_ordered(wf.node) if isinstance(st_, ast.Assign) and isinstance(st_.targets[0], ast.Name) and isinstance(st_.value, ast.Call) and call_name(st_.value) == 'create_future']
+    fv = futs[0] if len(futs) == 1 else '?'
+    added = [n for n in wcfg.nodes if any(call_name(c) == 'add' and isinstance(c.func, ast.Attribute) and norm(c.func.value) == wf.params[1] and c.args and norm(c.args[0]) == fv for c in n.calls())]
+    awaited = [n for n in wcfg.nodes if any(isinstance(x, ast.Await) and norm(x.value) == fv for e in n.exprs() for x in ast.walk(e))]
+    timer_ok = len(arm) == 1 and len(arm[0].args) >= 3 and norm(arm[0].args[1]) == '_set_future_none_if_not_done' and norm(arm[0].args[2]) == fv
+    byp_w = wcfg.must_pass_before_exit(wcfg.entry, lambda n: n in awaited) if awaited else [wcfg.entry]
+    order_w = bool(added) and bool(awaited) and all(wcfg.dominated_by_any(a_, added) for a_ in awaited)
+    obs.append(ob(R, wf, awaited[0].ast if awaited else f'await {fv}', 'the helper registers its future with the caller\'s set, arms the timer to resolve that future, and then awaits it on every path', len(futs) == 1 and timer_ok and order_w and byp_w is None, f'registered: {bool(added)}; timer resolves the future: {timer_ok}; awaited on every path: {byp_w is None}'))
+    sf = prog.func('zeroconf._utils.asyncio._set_future_none_if_not_done')
+    for done in (False, True):
+        oc_sf, und_sf = traces(ctx, sf, {'.done()': done}, lambda n, e: ['SET' for c in fd.node_calls(n, e) if call_name(c) == 'set_result'], loop_bound=1)
+        got_sf = {strip_ret(t).count('SET') for t in oc_sf}
+        obs.append(ob(R, sf, f'future {"already resolved" if done else "pending"}', f'the future is {"left alone" if done else "resolved (once)"}', got_sf == ({0} if done else {1}) and not und_sf, f'set_result calls per path: {sorted(got_sf)}'))
+    ra = prog.func('zeroconf._utils.asyncio._resolve_all_futures_to_none')
+    racfg = cfg_of(ra.node)
+    rl = [n for n in racfg.nodes if n.kind == 'for' and norm(n.ast.iter) == ra.params[0] and isinstance(n.ast.target, ast.Name)]
+    ok_ra = False
+    if len(rl) == 1:
+        oc_ra, _ = fd.run_paths(prog, ra.module, racfg, {}, lambda n, e: [('R', tuple(norm(a) for a in c.args)) for c in fd.node_calls(n, e) if call_name(c) == '_set_future_none_if_not_done'], start=rl[0], stop=lambda n: n is rl[0], loop_bound=1, for_iter=lambda n, e: True)
+        ok_ra = {tuple(x for x in strip_ret(t) if isinstance(x, tuple)) for t in oc_ra} == {(('R', (rl[0].ast.target.id,)),)}
+    obs.append(ob(R, ra, rl[0].ast if rl else ra.name, 'waking the waiters resolves every future of the set', ok_ra))
     aw_f = prog.func('zeroconf._services.info.ServiceInfo.async_wait')
     fw = [c for c in walk_local_ordered(aw_f.node) if isinstance(c, ast.Call) and call_name(c) == 'wait_for_future_set_or_timeout']
     obs.append(ob(R, aw_f, fw[0] if fw else 'wait_for_future_set_or_timeout(loop, futures, timeout)', 'the lookup hands its wait time to the helper unchanged', len(fw) == 1 and len(fw[0].args) == 3 and norm(fw[0].args[2]) == aw_f.params[1]))
